@@ -264,6 +264,13 @@ func (vc *VC) send(x *ssa.Send, st *State) {
 	if vc.fc != nil && vc.fc.Flags["check-chan"] {
 		vc.oblige("send-closed-chan", "", not(vc.heapRead(st, "#closed", types.Typ[types.Bool], ch.S)), x.Pos())
 	}
+	// a send that may block must not happen while a mutex taken by this function is held: whoever
+	// drains the channel may need that mutex
+	if vc.fc != nil && vc.fc.Flags["no-blocking-under-lock"] {
+		vc.heapKeySort("#held", types.Typ[types.Bool])
+		h := vc.heapGet(st, "#held", types.Typ[types.Bool])
+		vc.oblige("blocking-send-while-locked", "", fmt.Sprintf("(forall ((l!h Loc)) (! (not (select %s l!h)) :pattern ((select %s l!h))))", h, h), x.Pos())
+	}
 	vc.sendHook(x.Chan, x.X, st, x.Pos())
 }
 
